@@ -303,7 +303,7 @@ _ = (norm,)
 #   * `d = {k: v for x in xs [if c]}` and `d.update((k, v) for x in xs)` / `d.update({k: v for ...})` -> loop with `d[k] = v`
 #   * `if c: A; else: B` where a branch is a lone call statement is left alone (no control-flow rewriting)
 
-_INLINE_MAX_STMTS = 40
+_INLINE_MAX_STMTS = 160
 # functions the rules look for by role at their call sites: a call to one of them is an anchor and is never inlined away
 ANCHOR_CALLS = {
     'create_target_source_introspection', 'create_target_linker_introspection', 'create_test_serialisation', 'create_install_data',
@@ -464,6 +464,37 @@ class _Normaliser:
                     ast.copy_location(n, st)
                     ast.fix_missing_locations(n)
                 return [init, loop]
+        # xs = [e for x in it if c]  /  return [e for x in it if c]   ->   loop with append (a call element is bound to a local first)
+        if isinstance(st, (ast.Assign, ast.AnnAssign, ast.Return)) and isinstance(getattr(st, 'value', None), ast.ListComp) \
+                and len(st.value.generators) == 1 and not st.value.generators[0].is_async:
+            lc = st.value
+            if isinstance(st, ast.Return):
+                self.uid += 1
+                nm = f'result__c{self.uid}'
+            else:
+                tg = st.targets[0] if isinstance(st, ast.Assign) and len(st.targets) == 1 else getattr(st, 'target', None)
+                nm = tg.id if isinstance(tg, ast.Name) else None
+            if nm is not None:
+                g = lc.generators[0]
+                elt: ast.AST = lc.elt
+                inner: T.List[ast.stmt] = []
+                if isinstance(elt, ast.Call):
+                    self.uid += 1
+                    tmp = f'elt__c{self.uid}'
+                    inner.append(ast.Assign(targets=[ast.Name(id=tmp, ctx=ast.Store())], value=elt))
+                    elt = ast.Name(id=tmp, ctx=ast.Load())
+                inner.append(ast.Expr(value=ast.Call(func=ast.Attribute(value=ast.Name(id=nm, ctx=ast.Load()), attr='append', ctx=ast.Load()), args=[elt], keywords=[])))
+                for c_ in reversed(g.ifs):
+                    inner = [ast.If(test=c_, body=inner, orelse=[])]
+                loop2 = ast.For(target=g.target, iter=g.iter, body=inner, orelse=[])
+                init2 = ast.Assign(targets=[ast.Name(id=nm, ctx=ast.Store())], value=ast.List(elts=[], ctx=ast.Load()))
+                outl: T.List[ast.stmt] = [init2, loop2]
+                if isinstance(st, ast.Return):
+                    outl.append(ast.Return(value=ast.Name(id=nm, ctx=ast.Load())))
+                for n_ in outl:
+                    ast.fix_missing_locations(ast.copy_location(n_, st))
+                loop2.body = self.block(loop2.body, depth)
+                return outl
         # d.update(<generator of pairs> | <dict comprehension>)
         if isinstance(st, ast.Expr) and isinstance(st.value, ast.Call) and call_method(st.value) == 'update' and isinstance(st.value.func, ast.Attribute) \
                 and isinstance(st.value.func.value, ast.Name) and len(st.value.args) == 1 and not st.value.keywords:
